@@ -203,6 +203,11 @@ def deadlinesVacancy (w : World) (h : Nat) (faultsEnd : Nat) (t : Nat) : World :
     if !cands.isEmpty ∧ since + vacancyBound h < t then
       let acc := { acc with vacantSince := acc.vacantSince.map fun p => if p.1 == kv.1 then (p.1, t) else p }
       let acc := failW acc "C06" "vacancy-not-filled" s!"key {kv.1} vacant since {kv.2} (candidates healthy since {since}), nobody leads at {t}; candidates {cands.map (·.cfg.id)}"
+      -- C13: whatever an outside party does to the record, no instance stops responding: a vacancy that an outside
+      -- deletion made and that the healthy candidates leave unfilled is one
+      let acc := if acc.vacantOutside.contains kv.1 then
+          failW acc "C13" "passive-after-outside-deletion" s!"key {kv.1}: removed from outside, vacant since {kv.2}; the candidates {cands.map (·.cfg.id)} are running and reachable and none of them acquires it"
+        else acc
       -- C12: an instance demoted for its health goes on as a follower and can be re-elected
       if cands.all (·.healthDemoted) then
         failW acc "C12" "not-re-elected-after-health-demotion" s!"key {kv.1} vacant since {kv.2}: the only candidates {cands.map (·.cfg.id)} were demoted by the health mechanism earlier and none of them acquires"
@@ -581,6 +586,7 @@ def step (m : MState) (e : TEv) : MState :=
     { m with w := c02 (verifyTrack (recordLost (w.mutate 0 .extPut key 0 (some val)) h key (w.live key))) h }
   | .extDelete key _ =>
     let w := checkW w0 (¬ h.noOutside) "HYP" "no-outside-writer" "ext delete"
+    let w := { w with vacantOutside := if w.vacantOutside.contains key then w.vacantOutside else key :: w.vacantOutside }
     { m with w := c02 (verifyTrack (recordLost (w.mutate 0 .extDelete key 0 none) h key (w.live key))) h }
   | .wev _ i rev wv =>
     -- a notification older than the newest version of the key is stale news for the follower's LeaderID (C18 convergence)
@@ -646,7 +652,7 @@ def step (m : MState) (e : TEv) : MState :=
                                      hbPending := if x.flag then x.hbPending else none }
         let w := if x.flag then w else w.hit "C05:term-started"
         let w := if (w.vacantSince.any (·.1 == x.cfg.key)) then w.hit "C06:vacancy-filled" else w
-        let w := { w with vacantSince := w.vacantSince.filter (·.1 != x.cfg.key) }
+        let w := { w with vacantSince := w.vacantSince.filter (·.1 != x.cfg.key), vacantOutside := w.vacantOutside.filter (· != x.cfg.key) }
         { m with w := c02 (verifyTrack w) h }
       else
         let x' := if x.flag then endTerm x else x
